@@ -101,11 +101,11 @@ pub fn gen_history<S: Sut>(seed: u64, cfg: Cfg, sweep: Option<Sweep>) -> Outcome
             }
         };
     }
-    // fast-forwards: in every sixth history up to two update commands carry a dot far ahead of the author's next
+    // fast-forwards: in every sixth history up to three update commands carry a dot far ahead of the author's next
     // one (a long stretch of ops whose effects are gone): counters cross u8/u16/u31/u32 boundaries in mid-history,
     // lagging replicas and stale snapshots are then orders of magnitude behind
-    let mut jumps_left = if !cfg.misuse && rng.chance(1, 6) { 2 } else { 0 };
-    const JUMPS: [u64; 6] = [250, 65_530, 70_000, (1 << 31) + 8, (1 << 32) - 3, 1 << 33];
+    let mut jumps_left = if !cfg.misuse && rng.chance(1, 6) { 3 } else { 0 };
+    const JUMPS: [u64; 8] = [250, 65_530, 70_000, 1 << 30, 3 << 29, (1 << 31) + 8, (1 << 32) - 3, 1 << 33];
     if !cfg.misuse && jumps_left == 0 && rng.chance(1, 5) {
         // aged start: every actor has a long past (counters beyond u8 / u16 / u32 ranges) whose effects are gone
         let base: Vec<(u8, u64)> = (0..cfg.nrep).map(|r| (actor_ids[r], [250u64, 65_530, (1 << 32) - 3, 1 << 40][rng.below(4)])).collect();
